@@ -397,6 +397,9 @@ func genLegalMethod(t *rapid.T, name string, types []typeRef, lbl string) Method
 		}
 	case "multicast":
 		m.PerNodeArg = chance(t, 30, lbl+"pernode")
+	case "rpc":
+		// the rpc call type is implied by the absence of options; it may also be declared
+		m.RPC = chance(t, 50, lbl+"rpcDeclared")
 	}
 	if ct == "multicast" || ct == "unicast" {
 		// one-way methods never use their response type in the generated code; request and
@@ -452,7 +455,7 @@ func corrupt(t *rapid.T, d *Def, _ []typeRef, usedTypes map[string]bool, lbl str
 			meths = append(meths, &f.Services[si].Methods[mi])
 		}
 	}
-	kinds := []string{"calltypes", "calltypes", "option", "option", "stream", "custom", "rpcopt", "falseopt", "depbase",
+	kinds := []string{"calltypes", "calltypes", "option", "option", "stream", "streamopt", "streamopt", "custom", "rpcopt", "falseopt", "depbase",
 		"methname", "methname", "msgname", "msgname", "svcname", "package", "svc2"}
 	kind := rapid.SampledFrom(kinds).Draw(t, lbl+"kind")
 	var m *Method
@@ -520,6 +523,31 @@ func corrupt(t *rapid.T, d *Def, _ []typeRef, usedTypes map[string]bool, lbl str
 			m.ServerStream = true
 		default:
 			m.ClientStream, m.ServerStream = true, true
+		}
+	case "streamopt":
+		// every stream direction with every call type (the documented rules: client streams only for
+		// multicast, server streams only for correctable), sometimes with a further option
+		if m == nil {
+			return
+		}
+		m.ClientStream, m.ServerStream = false, false
+		switch rapid.IntRange(0, 2).Draw(t, lbl+"streamKind") {
+		case 0:
+			m.ClientStream = true
+		case 1:
+			m.ServerStream = true
+		default:
+			m.ClientStream, m.ServerStream = true, true
+		}
+		m.RPC, m.Unicast, m.Multicast, m.Quorumcall, m.Correctable = false, false, false, false, false
+		if ct := rapid.SampledFrom([]string{"multicast", "multicast", "correctable", "quorumcall", "unicast", "rpcopt", ""}).Draw(t, lbl+"streamCT"); ct != "" {
+			setCallType(m, ct)
+		}
+		switch rapid.IntRange(0, 5).Draw(t, lbl+"streamOpt") {
+		case 0:
+			m.PerNodeArg = true
+		case 1:
+			m.Async = true
 		}
 	case "custom":
 		// a custom return type next to an imported or identical output type
